@@ -197,7 +197,7 @@ class Samples(SamplesInterface, ABC):
         Returns the value for a variable with a given path
         for each sample in the model
         """
-        return [sample.kwargs[path] for sample in self.sample_list]
+        return [sample.value_for_key(path) for sample in self.sample_list]
 
     @property
     def total_iterations(self) -> int:
